@@ -132,6 +132,35 @@ def run_history(case, fresh=False, workers=None):
                                                   for a, v in sub)),
                                constants=consts or None, verbosity=0, **skw)
 
+        if case.get("aborted_first") and not fresh:
+            # an earlier attempt at the same sweep with a function that broke
+            # down in the middle of a batch; the function is repaired and the
+            # sweep sown again
+            import functools
+            tfile = os.path.join(root, "fail-at.txt")
+            kind0 = "str" if kind != "str" else "int"
+            fn0 = functools.partial(models.failing_at, _xv=(kind0, tfile))
+            with under_test("first attempt: sow"):
+                sow(fn0)
+            capped = bool(bspec) and bspec[0] == "num_batches" and \
+                bspec[1] != len(crops.batch_ids(root, name))
+            if capped:
+                # (asking once more for a batch count that had to be capped
+                # is refused - not this property's business: start afresh)
+                sown[-1].delete_all()
+            for i in (() if capped else crops.batch_ids(root, name)):
+                b = crops.read_batch(root, name, i)
+                if len(b) >= 2:
+                    with open(tfile, "w") as f:
+                        f.write(models.canon_kw(b[len(b) // 2]))
+                    try:
+                        with under_test("first attempt: grow",
+                                        expect=(models.FlakyError,)):
+                            sown[-1].grow(i)
+                    except models.FlakyError:
+                        pass
+                    break
+            sown.clear()
         with under_test("sow"):
             in_child(sow) if fresh else sow()
 
@@ -403,6 +432,7 @@ def history(draw, max_settings=40):
     case["plan"] = steps
     case["final_reload"] = draw(st.booleans())
     case["same_object_again"] = draw(st.sampled_from([False, False, True]))
+    case["aborted_first"] = draw(st.sampled_from([False, False, True]))
     case["reap_reload"] = draw(st.booleans())
     return case
 
